@@ -84,6 +84,8 @@ def record_and_validate(ctx, n):
         x = same[0]
         kind = "keyids-error" if any(str(k).startswith("error:") for v in x["kids"].values() for k in v) else "answers"
         key = ("C02/lookalike-member/trace/%s" % kind) if x.get("look") else ("C02/trace/%s/after=%s" % (kind, x["op"]))
+        if x.get("lone"):
+            key = "C02/lone-surrogate/trace/%s" % kind
         if key in rejected:
             rejected[key] += 1
             return
